@@ -107,7 +107,13 @@ fn main() {
         match solve(&reqs, guesses, Config::default()) {
             Err(e) => {
                 let drift = matches!(e.error, NonLinearSystemError::DidNotConverge) && groups.iter().any(|g| g.1.is_unsatisfied() && !g.2.is_empty());
-                bad(format!("every group solves alone but the union fails: {:?}", e.error), if drift { "drift-on-inconsistent-rank-deficient" } else { "union-fails" });
+                // an inconsistent group (unsatisfied requests when solved alone, i.e. it ends at the
+                // step-size test) keeps the union's largest error above the tolerance for ever, so the
+                // union can only end at the step-size test: a group that converges slowly (a singular
+                // solution reached from a collapsed guess) then exhausts the iteration cap although it
+                // meets the residual test on its own after a dozen rounds
+                let stuck = matches!(e.error, NonLinearSystemError::DidNotConverge) && groups.iter().any(|g| g.1.is_unsatisfied());
+                bad(format!("every group solves alone but the union fails: {:?}", e.error), if drift { "drift-on-inconsistent-rank-deficient" } else if stuck { "union-runs-out-of-iterations-beside-an-inconsistent-part" } else { "union-fails" });
             }
             Ok(o) => {
                 // verdicts per group
